@@ -176,7 +176,7 @@ func Check17(c Case17, r *core.Rec) {
 			if sortMode(c.Profile) == 2 {
 				op = SPOp{Op: "sortabs"}
 			}
-			if hasCodecDelimiter(l0) && q1 == treeSerialize(l0.apply(op)) && q2 == treeSerialize(l1.apply(op)) && !sortAmbiguous(l0) && !sortAmbiguous(l1) {
+			if hasCodecDelimiter(l0) && q1 == treeSerialize(l0.apply(op)) && q2 == treeSerialize(l1.apply(op)) {
 				r.Known("KF-C17-serializer", "%s: %s -> %s -> %s", c.Profile, quote(x), quote(s1), quote(s2))
 				return
 			}
